@@ -225,6 +225,8 @@ class SizeEval:
             if recv[0] == "graph":
                 if f.attr in ("number_of_nodes", "order", "__len__") and not args:
                     return ("int", ("N", recv[1]))
+                if f.attr in ("number_of_edges", "size") and not args and not e.keywords:
+                    return ("int", ("E", recv[1]))          # copies and one-to-one relabellings keep the bonds
                 if f.attr == "copy":
                     return recv
                 if f.attr == "nodes":
@@ -254,9 +256,60 @@ class SizeEval:
         return v is not None and v[0] == "map" and v[1] == ("N", g[1])
 
 
+_OPPOSITE = {ast.Eq: ast.NotEq, ast.NotEq: ast.Eq, ast.Lt: ast.GtE, ast.GtE: ast.Lt, ast.Gt: ast.LtE, ast.LtE: ast.Gt, ast.In: ast.NotIn, ast.NotIn: ast.In,
+             ast.Is: ast.IsNot, ast.IsNot: ast.Is}
+
+
+def _negates(guard: ast.expr, test: ast.expr) -> bool:
+    """is `test` the negation of `guard` (same operands, opposite comparison; or `not guard`)"""
+    if isinstance(test, ast.UnaryOp) and isinstance(test.op, ast.Not) and norm(test.operand) == norm(guard):
+        return True
+    if isinstance(guard, ast.UnaryOp) and isinstance(guard.op, ast.Not) and norm(guard.operand) == norm(test):
+        return True
+    if isinstance(guard, ast.Compare) and isinstance(test, ast.Compare) and len(guard.ops) == 1 and len(test.ops) == 1:
+        same = norm(guard.left) == norm(test.left) and norm(guard.comparators[0]) == norm(test.comparators[0])
+        swapped = norm(guard.left) == norm(test.comparators[0]) and norm(guard.comparators[0]) == norm(test.left)
+        opp = _OPPOSITE.get(type(guard.ops[0]))
+        if same and opp is not None and isinstance(test.ops[0], opp):
+            return True
+        if swapped and isinstance(guard.ops[0], (ast.Eq, ast.NotEq)) and opp is not None and isinstance(test.ops[0], opp):
+            return True
+    return False
+
+
+def implied_by_guard(fn: ast.FunctionDef, a: ast.Assert) -> Optional[str]:
+    """the assertion restates an earlier guard of the same block: `if c: raise / return / continue` ... `assert not c`, with
+    nothing in between that binds a name the condition reads"""
+    def blocks(node):
+        for fld in ("body", "orelse", "finalbody"):
+            b = getattr(node, fld, None)
+            if isinstance(b, list) and b and isinstance(b[0], ast.stmt):
+                yield b
+                for st in b:
+                    yield from blocks(st)
+        for h in getattr(node, "handlers", []) or []:
+            yield from blocks(h)
+    for b in blocks(fn):
+        if a not in b:
+            continue
+        i = b.index(a)
+        names = {x.id for x in ast.walk(a.test) if isinstance(x, ast.Name)}
+        for j in range(i - 1, -1, -1):
+            st = b[j]
+            if isinstance(st, ast.If) and not st.orelse and st.body and isinstance(st.body[-1], (ast.Raise, ast.Return, ast.Continue, ast.Break)) and _negates(st.test, a.test):
+                return f"restates the guard `if {norm(st.test)}: {type(st.body[-1]).__name__.lower()}` of line {st.lineno}"
+            stored = {x.id for x in ast.walk(st) if isinstance(x, ast.Name) and isinstance(x.ctx, (ast.Store, ast.Del))}
+            if stored & names or any(isinstance(x, ast.Call) for x in ast.walk(st) if not isinstance(st, ast.Assert)) and any(isinstance(x, (ast.Attribute, ast.Subscript)) for x in ast.walk(a.test)):
+                return None
+    return None
+
+
 def assertion_holds(ctx, fi: FuncInfo, a: ast.Assert) -> Optional[str]:
     """why the assertion holds for every molecule, or None when this domain cannot tell"""
     t = a.test
+    g_ = implied_by_guard(fi.node, a)
+    if g_:
+        return g_
     if isinstance(t, ast.BoolOp) and isinstance(t.op, ast.And):
         whys = [assertion_holds(ctx, fi, ast.Assert(test=v, msg=None)) for v in t.values]
         return "; ".join(dict.fromkeys(whys)) if all(whys) else None
